@@ -2,12 +2,28 @@
 from sym import run as symrun
 from harness import components as hc
 
+HELPERS = ['PEPit/function.py::Function.add_constraints_from_one_list_of_points', 'PEPit/function.py::Function.add_constraints_from_two_lists_of_points']
+HELPER_ASSUMPTIONS = [
+    'a class closure passed to the pair helpers allocates one Constraint plus non-leaf expressions / points / dicts and changes nothing that existed (assumed abstract '
+    'contract; the closures themselves are checked by contract-level execution, C03/C04)',
+    'pandas / numpy by denotation: DataFrame(cells, columns, index) keeps what it is given, np.array of a list of rows has shape (0,) iff there is no row, '
+    'reshape(1, -1) of a flat list is one row; str.format is an uninterpreted function (congruence only)',
+    'spec function cnt (number of cells holding a constraint before a position, row-major) is defined by recursion; "exactly these constraints" is the length equation '
+    'plus one distinct position per required pair',
+]
+
 
 def run(run):
     from pyvc import leancheck
     leancheck.check(run, 'Perm.lean', 'the generated condition set is invariant under permutation of the samples')
     symrun.class_formulas(run)                                   # (b)-(e): call structure, formulas, symmetry flags, completeness
-    hc.pair_helpers(run, clauses=['pairs', 'appended'])          # (a): bounded run-time contract of the generic pair helpers
+    # (a): the generic pair helpers, proved from the real source (one constraint per required ordered pair, by one closure call on that pair, in row-major order)
+    from pyvc import components, runner
+    runner.load_contracts()
+    components.ast_functions(run, HELPERS, run.tier)
+    run.trust('pyvc AST engine + z3 5.1 / cvc5 1.0.3')
+    run.assume(*HELPER_ASSUMPTIONS)
+    hc.pair_helpers(run, clauses=['pairs', 'appended'])          # ... and their bounded run-time contract on real objects (all list shapes <= 3-4 samples)
 
 
 def replay(rec, path):
